@@ -327,8 +327,44 @@ pub fn text_unhex(s: &str) -> String {
     String::from_utf8(unhex(s)).expect("utf8 text from driver")
 }
 
+/// panics of the library while it answered a query of the model (drained by the property runners: a panic of a
+/// public helper is a finding in its own right, and must not take the harness down with it)
+pub static ANSWER_PANICS: std::sync::Mutex<Vec<(String, Vec<u8>)>> = std::sync::Mutex::new(Vec::new());
+
 /// answer one oracle query of the driver by calling the real function
 pub fn answer(bytes: &[u8], q: &str) -> Option<String> {
+    let r = catch_unwind(AssertUnwindSafe(|| answer_unguarded(bytes, q)));
+    match r {
+        Ok(x) => x,
+        Err(e) => {
+            let msg = panic_msg(e);
+            let p: Vec<&str> = q.split('|').collect();
+            let input: Vec<u8> = match p.first().copied() {
+                Some("D") => {
+                    if let Some(r) = p.get(2).and_then(|x| x.strip_prefix('@')) {
+                        let mut it = r.split(':');
+                        let a: usize = it.next().and_then(|x| x.parse().ok()).unwrap_or(0);
+                        let b: usize = it.next().and_then(|x| x.parse().ok()).unwrap_or(0);
+                        bytes.get(a..b).map(|x| x.to_vec()).unwrap_or_default()
+                    } else {
+                        p.get(2).map(|x| unhex(x)).unwrap_or_default()
+                    }
+                }
+                _ => p.get(1).map(|x| unhex(x)).unwrap_or_default(),
+            };
+            if let Ok(mut g) = ANSWER_PANICS.lock() {
+                g.push((format!("query {} ({}): {}", p.first().copied().unwrap_or("?"), p.get(1).copied().unwrap_or("").chars().take(40).collect::<String>(), msg), input));
+            }
+            // a decode that panics has no text: the model goes on as for an undecodable slice
+            match p.first().copied() {
+                Some("D") => Some(format!("{}|E", q)),
+                _ => None,
+            }
+        }
+    }
+}
+
+fn answer_unguarded(bytes: &[u8], q: &str) -> Option<String> {
     let p: Vec<&str> = q.split('|').collect();
     match p[0] {
         "D" => {
